@@ -1,5 +1,6 @@
 mod auth;
 mod chain;
+mod dlog;
 mod chainrec;
 mod keys;
 mod layout;
@@ -16,6 +17,7 @@ fn main() {
         "chain-record" => chainrec::cmd_record(args[2].parse().unwrap(), &args[3]),
         "chain-unique" => chain::cmd_unique(args[2].parse().unwrap(), &args[3]),
         "auth-replay" => auth::cmd_replay(&args[2], &args[3]),
+        "dlog-replay" => dlog::cmd_replay(&args[2], &args[3]),
         "chain-honest" => chain::cmd_honest(&args[2], &args[3]),
         o => {
             eprintln!("unknown command {o}");
